@@ -2,6 +2,7 @@
 from __future__ import annotations
 
 import ast
+import re
 
 from ..core import Ctx, RuleResult, anchor_files, rule
 from ..dims import check_dispatch_arms, check_function_units
@@ -412,6 +413,12 @@ def r09_11_hebrew_month_kinds(ctx: Ctx) -> RuleResult:
                     return kind(e.left, env)
                 if isinstance(e.left, ast.Constant) and isinstance(e.op, ast.Add):
                     return kind(e.right, env)
+                # month arithmetic in one numbering stays in that numbering: months-in-year +/- a civil month count is civil
+                a, b = kind(e.left, env), kind(e.right, env)
+                if a is not None and (b is None or b == a):
+                    return a
+                if b is not None and a is None:
+                    return b
             if isinstance(e, ast.IfExp):
                 a, b = kind(e.body, env), kind(e.orelse, env)
                 return a if a == b else None
@@ -471,7 +478,8 @@ def r09_11_hebrew_month_kinds(ctx: Ctx) -> RuleResult:
                 elif isinstance(s, ast.AugAssign):
                     check_calls(s.value, env)
                     if isinstance(s.target, ast.Name) and not isinstance(s.value, ast.Constant):
-                        env[s.target.id] = None
+                        k2 = kind(s.value, env)
+                        env[s.target.id] = k2 if k2 is not None else env.get(s.target.id)
                 elif isinstance(s, ast.If):
                     check_calls(s.test, env)
                     e1 = block(s.body, dict(env))
@@ -562,4 +570,63 @@ def r09_12_months_between_is_checked_by_addition(ctx: Ctx) -> RuleResult:
                             rr.fail(g.qual, f"`{unparse(n)}` orders two year-month-day values with the naive operator although {c.name} defines its own `compare` (month numbers are not in chronological order here)", ctx.loc(g, n))
             rr.inst()
             rr.ok({"class": c.qual, "ordering": "own compare; no naive operator on year-month-day values"})
+    # package-wide (type-resolved): the naive operators on two _YearMonthDay values are legitimate only inside calculators that
+    # keep the default `compare` (month numbers in chronological order); everywhere else - period fields, value types - ordering
+    # must go through the calendar (`LocalDate` operators / `calendar._compare`), or Hebrew scriptural dates are mis-ordered
+    for g in sorted(set(M.func_of_node.values()), key=lambda x: x.qual):
+        if isinstance(g.node, ast.Lambda) or "_compatibility" in g.mod.rel:
+            continue
+        if g.cls is not None and (g.cls.name == "_YearMonthDay" or (M.is_subclass(g.cls, "_YearMonthDayCalculator") and "compare" not in g.cls.methods)):
+            continue
+        sc = ctx.R.scope(g)
+        for n in own_nodes(g.node):
+            if isinstance(n, ast.Compare) and any(isinstance(o, (ast.Lt, ast.LtE, ast.Gt, ast.GtE)) for o in n.ops):
+                ts = []
+                for o in [n.left, *n.comparators]:
+                    try:
+                        ts.append(ctx.R.type_of(o, sc))
+                    except Exception:  # noqa: BLE001
+                        ts.append(None)
+                if sum(1 for t in ts if t == "_YearMonthDay") >= 2:
+                    rr.inst()
+                    rr.fail(g.qual, f"`{unparse(n)}` orders two raw year-month-day values outside a calculator: month numbers are not chronological in every calendar (Hebrew scriptural), the comparison has to go through the calendar", ctx.loc(g, n))
+    return rr
+
+
+@rule("C09")
+def r09_13_unit_groups(ctx: Ctx) -> RuleResult:
+    """A Period has six time units (hours, minutes, seconds, milliseconds, ticks, nanoseconds) and four date units (years,
+    months, weeks, days).  Code that walks a period unit by unit - has_time_component, equality, addition, applying a period to a
+    date/time, the builder - must not skip one: a function that reads at least four of the six time units (three of the four date
+    units) of one object reads all of them.  (ticks is the unit that gets forgotten: it has no counterpart in most APIs.)"""
+    rr = RuleResult("R09.13", "unit-by-unit code covers the whole unit group: four or more time units read of one object means all six, three or more date units means all four", min_instances=20)
+    TIME = ["hours", "minutes", "seconds", "milliseconds", "ticks", "nanoseconds"]
+    DATE = ["years", "months", "weeks", "days"]
+    for f in sorted(set(ctx.M.func_of_node.values()), key=lambda x: x.qual):
+        if isinstance(f.node, ast.Lambda) or "_compatibility" in f.mod.rel:
+            continue
+        per: dict[str, set[str]] = {}
+        for x in own_nodes(f.node):
+            if isinstance(x, ast.Attribute):
+                a = re.sub(r"^_[A-Za-z]+__", "", x.attr).lstrip("_")
+                if a in TIME + DATE:
+                    per.setdefault(unparse(x.value), set()).add(a)
+        # tuples / any(...) over the units count as reads of the same object too (they are attribute reads)
+        for base, rd in sorted(per.items()):
+            t = [u for u in TIME if u in rd]
+            d = [u for u in DATE if u in rd]
+            if len(t) >= 4:
+                rr.inst()
+                miss = [u for u in TIME if u not in rd]
+                if miss:
+                    rr.fail(f.qual, f"reads the time units {t} of `{base}` but not {miss}: a period whose only non-zero time unit is {miss[0]} is treated as having none", ctx.loc(f))
+                else:
+                    rr.ok()
+            if len(d) >= 3:
+                rr.inst()
+                miss = [u for u in DATE if u not in rd]
+                if miss:
+                    rr.fail(f.qual, f"reads the date units {d} of `{base}` but not {miss}", ctx.loc(f))
+                else:
+                    rr.ok()
     return rr
